@@ -18,9 +18,9 @@
       shows): the INSERT transaction of a non-empty page, and the UPDATE of gpkg_contents when the page
       has an extent that changes the recorded one (SQLite does not rewrite an identical record).
 
-    Source lines refer to processing/gpkg/gpkg.go at the pinned tree + fix commits c3f647a, 16e3a13
-    (empty geometries are skipped when the page extent is accumulated; the geometry is appended to a
-    capped copy of the columns slice). *)
+    Source lines refer to processing/gpkg/gpkg.go at the pinned tree + fix commits c3f647a, 16e3a13,
+    e2006e7 (empty geometries are skipped when the page extent is accumulated; the geometry is appended
+    to a capped copy of the columns slice; the source's srs row overwrites a row the target already has). *)
 From Coq Require Import ZArith NArith List Bool String.
 Import ListNotations.
 Open Scope Z_scope.
@@ -182,9 +182,15 @@ Fixpoint find_srs (id : Z) (l : list srs) : option srs :=
   | s :: r => if Z.eqb (s_id s) id then Some s else find_srs id r
   end.
 
-(** Handle.UpdateSRS: INSERT ... ON CONFLICT(srs_id) DO NOTHING *)
-Definition update_srs (l : list srs) (s : srs) : list srs :=
-  match find_srs (s_id s) l with Some _ => l | None => l ++ [s] end.
+(** CreateTables :192-206 (after fix e2006e7): Handle.UpdateSRS (INSERT ... ON CONFLICT(srs_id) DO NOTHING)
+    followed by UPDATE gpkg_spatial_ref_sys SET ... WHERE srs_id = ?  with the source table's row: a row
+    with that id is replaced in place (also one the library pre-seeded), otherwise the row is appended.
+    Two source tables with the same srs id but different rows: the LAST table's row stays. *)
+Fixpoint update_srs (l : list srs) (s : srs) : list srs :=
+  match l with
+  | [] => [s]
+  | x :: r => if Z.eqb (s_id x) (s_id s) then s :: r else x :: update_srs r s
+  end.
 
 Fixpoint find_tab (name : string) (l : list tabstate) : option tabstate :=
   match l with
